@@ -70,6 +70,8 @@ pub fn compute_boundary_points(mesh: &Mesh, patch: &[usize]) -> Result<Vec<Vec<P
 
     let mut sequences = Vec::new();
     while let Some(sequence) = take_one_boundary(&mut order) {
+        #[cfg(feature = "verif")]
+        crate::verif::tick();
         sequences.push(sequence);
     }
 
@@ -119,6 +121,8 @@ pub fn compute_patch_indices(mesh: &Mesh) -> Vec<Vec<usize>> {
     let mut patches = Vec::new();
 
     while !remaining_faces.is_empty() {
+        #[cfg(feature = "verif")]
+        crate::verif::tick();
         let mut working_queue = Vec::new();
 
         // Pick any face from the remaining faces and remove it from the set
